@@ -150,8 +150,9 @@ theorem rings_fold {h : Int × List P2 × Int → Int → Int × List P2 × Int}
 
 /-- the tactic that compares a generated loop body with its description: syntactically, else by arithmetic -/
 macro "step_eq" : tactic => `(tactic|
-  first | rfl | (simp only [Prod.mk.injEq, List.append_cancel_left_eq, List.cons.injEq, and_true]
-                 (try refine ⟨?_, ?_, ?_⟩) <;> first | rfl | omega | (constructor <;> omega)))
+  first | rfl | (simp only [Prod.mk.injEq, List.append_cancel_left_eq, List.cons.injEq, and_true, true_and]
+                 try (repeat' apply And.intro)
+                 all_goals first | trivial | rfl | omega))
 
 theorem hex_loop3 (dx dy : Int) (o : List P2) (x y i : Int) :
     PyFun.concentric_hexagons_loop3 dx dy (o, x, y) i = (o ++ [(x, y)], x + dx, y + dy) := by
